@@ -347,6 +347,26 @@ func (w *Worker) step(s *State) {
 		fn := w.callee(s, f, &x.Call, &args)
 		w.invoke(s, f, fn, args, x, "")
 	case *ssa.Go:
+		if ghostInt(s, "flag/go-threads") != 0 {
+			// the goroutine becomes a thread of the schedule (it runs when the harness lets it: rt.Settle / rt.Join)
+			args := w.callArgs(s, f, &x.Call)
+			fnv := w.callee(s, f, &x.Call, &args)
+			cl, ok := fnv.(*Closure)
+			if !ok || cl == nil {
+				unsupported("go statement on %T", fnv)
+			}
+			nf := newFrame(cl.fn, args, nil)
+			for k, fv := range cl.fn.FreeVars {
+				nf.env[fv] = cl.env[k]
+			}
+			if len(s.threads) == 0 {
+				s.threads = []*Thread{{}}
+			}
+			s.threads = append(s.threads, &Thread{frames: []*Frame{nf}})
+			s.job.stub("go-statement-as-thread:" + cl.fn.String())
+			f.ip++
+			return
+		}
 		s.job.stub("go-statement-dropped:" + f.fn.String())
 		f.ip++
 	case *ssa.Panic:
@@ -359,10 +379,13 @@ func (w *Worker) step(s *State) {
 	case *ssa.Send:
 		ch := w.get(s, f, x.Chan).(ChanRef)
 		co := s.cell(ch.id).(*ChanObj)
-		if len(co.buf) >= co.cap {
+		if co.closed {
+			throwRT("send on closed channel")
+		}
+		if len(co.buf) >= co.cap && !(len(s.threads) > 1 && chanSendReady(w, s, ch.id)) {
 			unsupported("blocking channel send")
 		}
-		s.heap[ch.id] = &ChanObj{buf: append(append([]Value(nil), co.buf...), w.get(s, f, x.X)), cap: co.cap}
+		s.heap[ch.id] = &ChanObj{buf: append(append([]Value(nil), co.buf...), w.get(s, f, x.X)), cap: co.cap, closed: co.closed}
 		f.ip++
 	case *ssa.Select:
 		f.env[x] = w.selectStmt(s, f, x)
@@ -374,8 +397,8 @@ func (w *Worker) step(s *State) {
 
 // selectStmt supports the non-blocking forms used by the code base (send with default).
 func (w *Worker) selectStmt(s *State, f *Frame, x *ssa.Select) Value {
-	if x.Blocking {
-		unsupported("blocking select")
+	if x.Blocking && (len(s.threads) <= 1 || !selectReady(w, s, f, x)) {
+		unsupported("blocking select with no ready case")
 	}
 	nrecv := 0
 	for _, st := range x.States {
@@ -393,7 +416,7 @@ func (w *Worker) selectStmt(s *State, f *Frame, x *ssa.Select) Value {
 		}
 		co := s.cell(ch.id).(*ChanObj)
 		if st.Dir == types.SendOnly {
-			if len(co.buf) < co.cap {
+			if len(co.buf) < co.cap || (len(s.threads) > 1 && chanSendReady(w, s, ch.id)) {
 				s.heap[ch.id] = &ChanObj{buf: append(append([]Value(nil), co.buf...), w.get(s, f, st.Send)), cap: co.cap}
 				res[0] = BV(64, uint64(i))
 				break
@@ -403,8 +426,12 @@ func (w *Worker) selectStmt(s *State, f *Frame, x *ssa.Select) Value {
 			res[ri] = zero(el)
 			if len(co.buf) > 0 {
 				res[ri] = co.buf[0]
-				s.heap[ch.id] = &ChanObj{buf: append([]Value(nil), co.buf[1:]...), cap: co.cap}
+				s.heap[ch.id] = &ChanObj{buf: append([]Value(nil), co.buf[1:]...), cap: co.cap, closed: co.closed}
 				res[0], res[1] = BV(64, uint64(i)), Bool(true)
+				break
+			}
+			if co.closed {
+				res[0], res[1] = BV(64, uint64(i)), Bool(false)
 				break
 			}
 			ri++
@@ -442,9 +469,16 @@ func (w *Worker) unop(s *State, f *Frame, x *ssa.UnOp) Value {
 		ch := v.(ChanRef)
 		co := s.cell(ch.id).(*ChanObj)
 		if len(co.buf) == 0 {
+			if co.closed {
+				z := zero(x.X.Type().Underlying().(*types.Chan).Elem())
+				if x.CommaOk {
+					return Tuple{z, Bool(false)}
+				}
+				return z
+			}
 			unsupported("blocking channel receive")
 		}
-		s.heap[ch.id] = &ChanObj{buf: append([]Value(nil), co.buf[1:]...), cap: co.cap}
+		s.heap[ch.id] = &ChanObj{buf: append([]Value(nil), co.buf[1:]...), cap: co.cap, closed: co.closed}
 		if x.CommaOk {
 			return Tuple{co.buf[0], Bool(true)}
 		}
@@ -1473,6 +1507,10 @@ func (w *Worker) builtin(s *State, f *Frame, b *ssa.Builtin, args []Value, dst s
 		}
 		return Iface{}
 	case "close":
+		if ch, ok := args[0].(ChanRef); ok && ch.id != 0 {
+			co := s.cell(ch.id).(*ChanObj)
+			s.heap[ch.id] = &ChanObj{buf: co.buf, cap: co.cap, closed: true}
+		}
 		return nil
 	case "print", "println":
 		return nil
